@@ -30,7 +30,7 @@ Section Api.
   Theorem marshal_refines t g v e : ty_ok S B t = true -> goty t = Some g ->
     tl_encode nm S t v = Some e -> go_marshal B g v = Ok e.
   Proof.
-    unfold tl_encode, go_marshal. intros Hok Hg He.
+    intros Hok Hg He. rewrite tl_encode_eq in He. unfold go_marshal.
     apply (proj1 (refines S F B HM tl_fuel) t g v e go_fuel Hok Hg He). pose proof go_fuel_ge. lia.
   Qed.
 
@@ -38,7 +38,7 @@ Section Api.
     tl_decode nm S t bs = Some (v, rest) ->
     exists st, go_unmarshal B g bs = (Ok v, st) /\ inp st = rest.
   Proof.
-    unfold tl_decode, go_unmarshal. intros Hok Hg He.
+    intros Hok Hg He. rewrite tl_decode_eq in He. unfold go_unmarshal.
     assert (Hr : runs (gdec B go_fuel g) bs v rest).
     { apply (proj2 (refines S F B HM tl_fuel) t g bs v rest go_fuel Hok Hg He). pose proof go_fuel_ge. lia. }
     destruct (Hr 0 0) as (a & p & E). unfold st0. rewrite E. eexists; split; reflexivity.
@@ -52,7 +52,7 @@ Section Api.
   Proof.
     intros Hids Hok Hg He. split; [apply (marshal_refines t g v e Hok Hg He)|].
     intros rest. apply (unmarshal_refines t g (e ++ rest) v rest Hok Hg).
-    unfold tl_decode. unfold tl_encode in He.
+    rewrite tl_decode_eq. rewrite tl_encode_eq in He.
     exact (roundtrip nm S Hids tl_fuel t v e rest He).
   Qed.
 
@@ -84,21 +84,22 @@ Section Api.
     m_err_id m <> (match m_resp_ids m with [x] => x | _ => m_err_id m + 1 end).
   Proof.
     unfold matches_method. intros H.
-    repeat (apply andb_true_iff in H as [H ?]).
+    apply andb_true_iff in H as [H Hneg]. apply andb_true_iff in H as [H Hty].
+    apply andb_true_iff in H as [H Hlen]. apply andb_true_iff in H as [H Hids].
+    apply andb_true_iff in H as [H Herr]. apply andb_true_iff in H as [H Hrid].
+    apply andb_true_iff in H as [_ Hreq].
     repeat split.
-    - destruct (m_req m), (dfields f); try discriminate; auto. apply String.eqb_eq; assumption.
-    - apply N.eqb_eq; assumption.
+    - destruct (m_req m), (dfields f); try discriminate; auto. apply String.eqb_eq; exact Hreq.
+    - apply N.eqb_eq; exact Hrid.
     - destruct (find_ctor S "liteServer.error") as [e0|]; [|discriminate]. exists e0.
-      match goal with H : (_ && _)%bool = true |- _ => apply andb_true_iff in H as [H1 H2] end.
-      apply N.eqb_eq in H1. auto.
+      apply andb_true_iff in Herr as [Ha Hb]. apply N.eqb_eq in Ha. auto.
     - destruct (ctors_of S (dres f)) as [|d [|? ?]] eqn:Ec; try discriminate. exists d.
-      split; [reflexivity|]. cbn [map] in *. unfold result_goname in *. rewrite Ec in *.
-      match goal with H : list_eqb N.eqb _ _ = true |- _ =>
-        apply (list_eqb_eq _ (fun x y => proj1 (N.eqb_eq x y))) in H; rewrite H end.
-      split; [reflexivity|]. symmetry. apply String.eqb_eq; assumption.
-    - match goal with H : negb (existsb _ _) = true |- _ => apply negb_true_iff in H; rename H into Hn end.
-      destruct (m_resp_ids m) as [|x [|? ?]]; try lia. cbn [existsb] in Hn. rewrite orb_false_r in Hn.
-      apply N.eqb_neq; exact Hn.
+      split; [reflexivity|]. cbn [map] in Hids. unfold result_goname in Hty. rewrite Ec in Hty.
+      apply (list_eqb_eq _ (fun x y => proj1 (N.eqb_eq x y))) in Hids. rewrite Hids.
+      split; [reflexivity|]. symmetry. apply String.eqb_eq; exact Hty.
+    - apply negb_true_iff in Hneg.
+      destruct (m_resp_ids m) as [|x [|? ?]]; try lia. cbn [existsb] in Hneg. rewrite orb_false_r in Hneg.
+      apply N.eqb_neq; exact Hneg.
   Qed.
 
   Theorem request_refines f m v e : In f F -> matches_method S f m = true ->
@@ -126,7 +127,7 @@ Section Api.
         - rewrite Edf; exact Ea. }
       rewrite (Hg go_fuel); [reflexivity|]. pose proof go_fuel_ge. lia.
     - (* no arguments: the id alone *)
-      cbn [enc_fields] in Ea. destruct fs; [|discriminate]. inversion Ea. now rewrite app_nil_r.
+      cbn [enc_fields] in Ea. destruct fs; [|discriminate]. inversion Ea. reflexivity.
   Qed.
 
   (* the server side: the arguments of a request decode into the request struct *)
@@ -156,17 +157,17 @@ Section Api.
     exists e', e = le_bytes 4 (did d) ++ e' /\ did d < two32 /\
       exists st, go_unmarshal B (GNamed (cname d)) e' = (Ok v, st).
   Proof.
-    intros Hids Ec He. unfold tl_encode in He. destruct tl_fuel_S as (ks & Eks).
+    intros Hids Ec He. rewrite tl_encode_eq in He. destruct tl_fuel_S as (ks & Eks).
     assert (Hgf : (3 * ks + 1 <= go_fuel)%nat) by (pose proof go_fuel_ge; lia).
     rewrite Eks in He. cbn [enc] in He. destruct v as [| | | |c fs]; try discriminate.
     rewrite Ec in He. cbn [find] in He.
     destruct (single_of_ctors S T d Ec) as (Hd & _ & Hs).
-    unfold nm, go_naming in He; cbn [xlbl] in He. rewrite Hs in He.
+    change (xlbl nm d) with (if single S d then ""%string else camel (dname d)) in He. rewrite Hs in He.
     destruct (String.eqb_spec c "") as [->|]; [|discriminate].
     destruct (N.ltb_spec (did d) two32) as [Hlt|]; [|discriminate].
-    destruct (enc_fields (go_naming S) (enc (go_naming S) S ks) (dfields d) fs []) as [e'|] eqn:Ee; [|discriminate].
+    destruct (enc_fields nm (enc nm S ks) (dfields d) fs []) as [e'|] eqn:Ee; [|discriminate].
     inversion He; subst e. exists e'. split; [reflexivity|]. split; [exact Hlt|].
-    pose proof (fields_law (go_naming S) _ _ (roundtrip (go_naming S) S Hids ks) _ _ _ _ [] Ee) as Hdec.
+    pose proof (fields_law nm _ _ (roundtrip nm S Hids ks) _ _ _ _ [] Ee) as Hdec.
     rewrite app_nil_r in Hdec.
     pose proof (single_unmarshal S F B HM ks (proj2 (refines S F B HM ks)) d e' fs [] go_fuel Hd Hs Hdec Hgf) as Hr.
     unfold go_unmarshal. destruct (Hr 0 0) as (a & p & E). unfold st0. rewrite E. eexists; reflexivity.
